@@ -140,6 +140,15 @@ func mkDst(content []int, spare int) []byte {
 	return b[:len(content):len(b)]
 }
 
+// scribble: the caller overwrites what it was given (the whole capacity): a result is the caller's to change, and no later call
+// may be affected by that
+func scribble(b []byte) {
+	b = b[:cap(b)]
+	for i := range b {
+		b[i] = 0xEE
+	}
+}
+
 func nn(a []int) []int {
 	if a == nil {
 		return []int{}
@@ -203,6 +212,7 @@ func seqCall(r seqReq) any {
 					ev.Twice = []int{-1}
 				}
 			}
+			scribble(out)
 		}
 		return ev
 	case "revcompstr":
@@ -300,6 +310,7 @@ func seqCall(r seqReq) any {
 				}
 			}
 		}
+		scribble(out)
 		return ev
 	case "ntoi":
 		return evNtoi{Op: r.Op, B: r.B, R: sequtil.Ntoi(byte(r.B))}
